@@ -295,6 +295,29 @@ func (c *comprCase) render(idx int) unit {
 	return unit{Idx: idx, XGo: x.String(), Go: g.String()}
 }
 
+// overloaded functions of the "ovl" context (XGo) and the candidate that is finally chosen (Go expansion)
+const comprPreludeOvlXGo = `
+func pickInts1_(v []int, f func() int) []int          { return nil }
+func pickInts2_(v []int, f func(p int) int) []int     { return v }
+func pickPairs1_(v [][]int, f func() int) [][]int      { return nil }
+func pickPairs2_(v [][]int, f func(p int) int) [][]int { return v }
+
+func pickInts = (
+	pickInts1_
+	pickInts2_
+)
+
+func pickPairs = (
+	pickPairs1_
+	pickPairs2_
+)
+`
+
+const comprPreludeOvlGo = `
+func pickInts(v []int, f func(p int) int) []int       { return v }
+func pickPairs(v [][]int, f func(p int) int) [][]int   { return v }
+`
+
 const comprPreludeCmd = `
 var _noted []int
 
@@ -354,8 +377,19 @@ func (c *comprCase) renderLoop(x, g *strings.Builder) {
 		g.WriteString(indent(nest(bodyCall+"\n"), "\t"))
 		both("\tfmt.Println(\"val -\")\n")
 	case "listc":
+		goCompr := "func() (ret []" + et + ") {\n" + indent(nest("ret = append(ret, "+eg+")\n"), "\t\t") + "\t\treturn\n\t}()"
+		if c.Src == "ovl" {
+			// argument of an overloaded function: the lambda rejects the first candidate, the second one matches
+			pick := "pickInts"
+			if c.Elt == "pair" {
+				pick = "pickPairs"
+			}
+			x.WriteString("\tshow(" + pick + "([" + ex + " " + phrases + "], p => p))\n")
+			g.WriteString("\tshow(" + pick + "(" + goCompr + ", func(p int) int { return p }))\n")
+			break
+		}
 		x.WriteString("\tshow([" + ex + " " + phrases + "])\n")
-		g.WriteString("\tshow(func() (ret []" + et + ") {\n" + indent(nest("ret = append(ret, "+eg+")\n"), "\t\t") + "\t\treturn\n\t}())\n")
+		g.WriteString("\tshow(" + goCompr + ")\n")
 	case "mapc":
 		k, v := c.mapKV()
 		x.WriteString("\tshow({" + k + ": " + v + " " + phrases + "})\n")
@@ -512,7 +546,7 @@ func runCompr() {
 	if len(cases) > 6000 {
 		per = 700
 	}
-	b := newBatcher(batchConfig{Name: "compr", Prelude: comprPrelude + comprPreludeCmd, PerProgram: per, Workers: 8})
+	b := newBatcher(batchConfig{Name: "compr", Prelude: comprPrelude + comprPreludeCmd + comprPreludeOvlXGo, GoPrelude: comprPrelude + comprPreludeCmd + comprPreludeOvlGo, PerProgram: per, Workers: 8})
 	defer b.close()
 	xres, gres := b.run(units)
 	compared, agree := 0, 0
